@@ -74,6 +74,28 @@ def run_workers(pid, tier, seed, total, nshards):
     return rows, worker_errors
 
 
+def run_replica(pid, tier, seed, total, nshards, salt):
+    """Re-run the same shards under other PYTHONHASHSEEDs; returns {case-json: out} for comparison."""
+    per = (total + nshards - 1) // nshards
+    procs = []
+    for k in range(nshards):
+        out = C.RUN / f"impl_{pid}_{k}_r{salt}.jsonl"
+        env = dict(os.environ, PYTHONPATH=f"{C.REPO}/src:{C.VERIF}/harness", PYTHONHASHSEED=str((seed * 17 + k * 13 + salt * 101 + 5) % 4294967295),
+                   PYTHONDONTWRITEBYTECODE="1", Y0_VERIF="1")
+        p = subprocess.Popen([C.PY, "-u", str(C.VERIF / "harness" / "vcheck.py"), "--worker", pid, tier, str(seed), str(k),
+                              str(nshards), str(per), str(out)], env=env, stdout=subprocess.PIPE, stderr=subprocess.PIPE, text=True)
+        procs.append((k, p, out))
+    res = {}
+    for k, p, out in procs:
+        p.communicate()
+        if out.exists():
+            for line in out.read_text().splitlines():
+                r = json.loads(line)
+                res[json.dumps(r["case"], sort_keys=True)] = (r["res"].get("out"), r["hashseed"])
+            out.unlink()
+    return res
+
+
 # ------------------------------------------------------------------ main check
 
 
@@ -109,6 +131,13 @@ def main_check(pid: str, tier: str) -> int:
     total = prop.budgets[tier]
     nshards = min(C.NPROC, max(1, total // 20))
     rows, worker_errors = run_workers(pid, tier, seed, total, nshards)
+    replica_diffs = []
+    for salt in range(1, getattr(prop, "hashseed_replicas", {}).get(tier, 0) + 1):
+        other = run_replica(pid, tier, seed, total, nshards, salt)
+        for r in rows:
+            k = json.dumps(r["case"], sort_keys=True)
+            if k in other and other[k][0] != r["res"].get("out") and not r["harness_error"]:
+                replica_diffs.append((r, other[k]))
     harness_errors = [r for r in rows if r["harness_error"]]
     good = [r for r in rows if not r["harness_error"]]
     bad_idx, coq_errors = C.run_case_files(pid, prop.coq_imports, prop.case_type, prop.check_fn, [r["term"] for r in good],
@@ -126,6 +155,9 @@ def main_check(pid: str, tier: str) -> int:
             report(r["res"].get("key") or prop.finding_key(r["case"], r["res"]), r["res"]["violation"],
                    {"kind": "property-oracle", "case": r["case"], "impl": r["res"], "hashseed": r["hashseed"]})
     search_cache = {}
+    for r, (out2, hs2) in replica_diffs:
+        report(f"{pid}/hashseed", f"result depends on PYTHONHASHSEED: {r['res'].get('out')} (seed {r['hashseed']}) vs {out2} (seed {hs2})",
+               {"kind": "hash-seed-dependence", "case": r["case"], "impl": r["res"], "hashseed": r["hashseed"], "other_hashseed": hs2, "other_out": out2})
     for i in bad_idx:
         r = good[i]
         verdict = prop.classify_mismatch(r["case"], r["res"])  # (is_concrete_failure, description, key)
@@ -183,6 +215,7 @@ def main_check(pid: str, tier: str) -> int:
             "traces_validated_against_impl": len(good) - len(bad_idx),
             "model_impl_mismatches": len(bad_idx), "input_distribution": dict(feats.most_common()),
             "known_findings_hit": dict(known_hits), "samples": samples,
+            "hashseed_replicas": getattr(prop, "hashseed_replicas", {}).get(tier, 0), "hashseed_differences": len(replica_diffs),
             "exhaustive": bool(getattr(prop, "exhaustive", {}).get(tier)),
             "modelled_not_verified": prop.modelled,
             "explanation": prop.explanation,
